@@ -25,6 +25,8 @@ pub const KEYS: &[&[u8]] = &[b"a", b"ab", b"", b"k\xff", b"0000000000000037", b"
 #[derive(Clone, Debug, Serialize, Deserialize, PartialEq, Eq, Hash)]
 pub enum COp {
     Put(u8, u16),
+    /// put of 40 kB + n kB (group-commit size limits, values larger than the memtable)
+    PutBig(u8, u8),
     Delete(u8),
     Batch(Vec<(u8, Option<u16>)>),
     Get(u8),
@@ -111,6 +113,15 @@ fn execute(case: &ConcCase, check_lin: bool) -> Result<(Vec<Rec>, ConcStats), St
                                 let k = *k % nk as u8;
                                 let id = idgen();
                                 let v = make_value(id, Val { len: 8 + *len as u32, compressible: false });
+                                match db.put(WriteOptions::default(), KEYS[k as usize].to_vec(), v) {
+                                    Ok(()) => effects.push((k, KKind::Write { val: Some(id), maybe: false })),
+                                    Err(e) => errors.lock().unwrap().push(format!("put returned {e:?} in a fault-free run")),
+                                }
+                            }
+                            COp::PutBig(k, n) => {
+                                let k = *k % nk as u8;
+                                let id = idgen();
+                                let v = make_value(id, Val { len: 40_000 + *n as u32 * 1000, compressible: false });
                                 match db.put(WriteOptions::default(), KEYS[k as usize].to_vec(), v) {
                                     Ok(()) => effects.push((k, KKind::Write { val: Some(id), maybe: false })),
                                     Err(e) => errors.lock().unwrap().push(format!("put returned {e:?} in a fault-free run")),
@@ -303,6 +314,7 @@ fn cfg_small() -> impl Strategy<Value = Cfg> {
 fn cop(max_len: u16) -> impl Strategy<Value = COp> {
     prop_oneof![
         30 => (0u8..6, 0u16..max_len).prop_map(|(k, l)| COp::Put(k, l)),
+        4 => (0u8..6, 0u8..120).prop_map(|(k, n)| COp::PutBig(k, n)),
         8 => (0u8..6).prop_map(COp::Delete),
         6 => prop::collection::vec((0u8..6, prop::option::weighted(0.8, 0u16..max_len)), 1..5).prop_map(COp::Batch),
         30 => (0u8..6).prop_map(COp::Get),
